@@ -596,7 +596,17 @@ class World:
         targets = self.addressed(ss, spec, uid_mode)
         verb = {"add": "+FLAGS", "remove": "-FLAGS", "replace": "FLAGS"}[action] + (".SILENT" if silent else "")
         text = f"{'UID ' if uid_mode else ''}STORE {self.fmt_set(spec)} {verb} ({' '.join(flags)})"
+        recent0 = self._disk_recent(b)
         r = await self._cmd(ss, text, kind=None if uid_mode else "STORE")
+        # \\Recent can never be set by a client: no message that was in the
+        # folder before the STORE may have gained it (the MH `Recent` sequence
+        # read from disk, by position: reading it has no side effect)
+        recent1 = self._disk_recent(b)
+        if recent0 is not None and recent1 is not None and len(recent1) >= len(recent0):
+            self.stats["store_recent_compares"] += len(recent0)
+            gained = [i + 1 for i, (x, y) in enumerate(zip(recent0, recent1)) if y and not x]
+            if gained and "\\Recent" not in [canon_flag(f) for f in flags]:
+                self.viol(["C04"], "store-set-recent", f"{text}: messages at positions {gained} were not \\Recent before the command and are after it (Recent before {recent0}, after {recent1})")
         cf = [canon_flag(f) for f in flags]
         self.flags_used.update(flags)
         if any(f == "\\Recent" for f in cf):
@@ -1027,6 +1037,15 @@ class World:
                 keys[int(fn)] = m.group(1).decode() if m else None
         seqs, _ = self.rig.disk_sequences(folder)
         return keys, seqs
+
+    def _disk_recent(self, b):
+        """Per position: is the message in the folder's `Recent` sequence?"""
+        try:
+            seqs, keys = self.rig.disk_sequences("inbox" if b.name == "INBOX" else b.name)
+        except Exception:
+            return None
+        rec = seqs.get("Recent", set())
+        return [k in rec for k in keys]
 
     def check_disk(self, name, where=""):
         """.mh_sequences mentions no missing message and shows the flags the
